@@ -1161,3 +1161,29 @@ mutant("c19-mutable-default", "C19", "R19.j", GGEN,
 mutant("c03-mutable-default", "C03", "R03.e", ORT,
        "    def solve(self, instance: JobShopInstance) -> Schedule:",
        "    def solve(self, instance: JobShopInstance, _solved: set = set()) -> Schedule:\n        _solved.add(instance.name)")
+
+# positive controls of the generic zero-expected rules added in round 6 (seeds) / 7 (refactors)
+BDG = "job_shop_lib/graphs/_build_disjunctive_graph.py"
+FACTF = "job_shop_lib/dispatching/_factories.py"
+mutant("c04-loop-var-after-loop", "C04", "R04.i", RULESF,
+       "    for operation in dispatcher.unscheduled_operations():\n        job_remaining_work[operation.job_id] += operation.duration\n\n    return max(",
+       "    for operation in dispatcher.unscheduled_operations():\n        pass\n    job_remaining_work[operation.job_id] += operation.duration\n\n    return max(",
+       "the accumulation slipped out of its loop: only the last operation counts")
+mutant("c07-loop-var-after-loop", "C07", "R07.i", FILT,
+       "            continue\n        filtered_operations.append(operation)\n\n    return filtered_operations",
+       "            continue\n    filtered_operations.append(operation)\n\n    return filtered_operations",
+       "append left one level too shallow")
+mutant("c16-loop-var-after-loop", "C16", "R16.i", BDG,
+       "            graph.add_edge(\n                node2,\n                node1,\n                type=EdgeType.DISJUNCTIVE,\n            )",
+       "            pass\n        graph.add_edge(\n            node2,\n            node1,\n            type=EdgeType.DISJUNCTIVE,\n        )",
+       "the reverse edge is added once per machine, for the last pair only")
+mutant("c11-str-enum-identity", "C11", "R11.g", "job_shop_lib/dispatching/feature_observers/_feature_observer.py",
+       "        if isinstance(exclude, FeatureType):", "        if exclude is FeatureType.JOBS or isinstance(exclude, FeatureType):")
+refactor("c15-r-weak-disjunctive-precheck", "C15", INST,
+         "        return self.jobs == other.jobs",
+         "        if self.num_operations > 0 and not (self.num_jobs == other.num_jobs):\n            return False\n        return self.jobs == other.jobs",
+         "an extra conjunct that is itself a disjunction covers nothing and harms nothing")
+mutant("c15-nan-padded-array-equal", "C15", "R15.a", INST,
+       "        return self.jobs == other.jobs",
+       "        if not np.array_equal(self.durations_matrix_array, other.durations_matrix_array):\n            return False\n        return self.jobs == other.jobs",
+       "NaN-padded view compared without equal_nan: equal ragged instances compare unequal")
